@@ -17,6 +17,7 @@ from c29 import C29  # noqa: E402
 
 class C08S(SchedProp):
     id = 'C08S'
+    report_id = 'C08'
     drv = 'C08S'
     props_modules = ['CylcModel.Props.C08Sched']
     theorems = [
